@@ -19,7 +19,10 @@ inductive SameTy : Ty → Ty → Prop
   | string : SameTy .string .string
   | record (s : String) : SameTy (.record s) (.record s)
   | enum (s : String) : SameTy (.enum s) (.enum s)
-  | array (c1 c2 : PCst) (e1 e2 : Ty) : SameTy e1 e2 → SameTy (.array c1 e1) (.array c2 e2)
+  | array (n : Nat) (c1 c2 : PCst) (e1 e2 : Ty) : SameTy e1 e2 → SameTy (.array n c1 e1) (.array n c2 e2)
+  | range (n : Nat) : SameTy (.range n) (.range n)
+  | slice (n : Nat) (c1 c2 : PCst) (e1 e2 : Ty) : SameTy e1 e2 → SameTy (.slice n c1 e1) (.slice n c2 e2)
+  | tuple (ms1 ms2 : TyList) : SameMembers ms1 ms2 → SameTy (.tuple ms1) (.tuple ms2)
   | func (ps1 ps2 : TyList) (rc1 rc2 : PCst) (r1 r2 : Ty) :
       SameTys ps1 ps2 → SameTy r1 r2 → SameTy (.func ps1 rc1 r1) (.func ps2 rc2 r2)
 /-- parameter lists: same length, same constness, same types -/
@@ -27,6 +30,11 @@ inductive SameTys : TyList → TyList → Prop
   | nil : SameTys .nil .nil
   | cons (c : PCst) (t1 t2 : Ty) (r1 r2 : TyList) :
       SameTy t1 t2 → SameTys r1 r2 → SameTys (.cons c t1 r1) (.cons c t2 r2)
+/-- members of a tuple: same length, same types (their constness is not part of the type) -/
+inductive SameMembers : TyList → TyList → Prop
+  | nil : SameMembers .nil .nil
+  | cons (c1 c2 : PCst) (t1 t2 : Ty) (r1 r2 : TyList) :
+      SameTy t1 t2 → SameMembers r1 r2 → SameMembers (.cons c1 t1 r1) (.cons c2 t2 r2)
 end
 
 /-- the language rule: numeric kinds convert into each other, an enum value converts to int,
@@ -37,7 +45,10 @@ inductive Accepts : Ty → CT → Prop
   | enumToInt (e : String) : Accepts .int (.val (.enum e))
   | char : Accepts .char (.val .char)
   | string : Accepts .string (.val .string)
-  | array (c1 c2 : PCst) (e1 e2 : Ty) : SameTy e1 e2 → Accepts (.array c1 e1) (.val (.array c2 e2))
+  | array (n : Nat) (c1 c2 : PCst) (e1 e2 : Ty) : SameTy e1 e2 → Accepts (.array n c1 e1) (.val (.array n c2 e2))
+  | range (n : Nat) : Accepts (.range n) (.val (.range n))
+  | slice (n : Nat) (c1 c2 : PCst) (e1 e2 : Ty) : SameTy e1 e2 → Accepts (.slice n c1 e1) (.val (.slice n c2 e2))
+  | tuple (ms1 ms2 : TyList) : SameMembers ms1 ms2 → Accepts (.tuple ms1) (.val (.tuple ms2))
   | record (s : String) : Accepts (.record s) (.val (.record s))
   | recordId (s : String) : Accepts (.record s) (.recordId s)
   | enum (s : String) : Accepts (.enum s) (.val (.enum s))
@@ -75,10 +86,33 @@ theorem paramCmp_sound : (t1 : Ty) → (cc : Bool) → (c1 c2 : PCst) → (t2 : 
     cases t2 <;> simp [paramCmp] at h
     rename_i ps2 rc2 r2
     exact .func _ _ _ _ _ _ (paramListCmp_sound ps1 ps2 h.2.1) (paramCmp_sound r1 false rc1 rc2 r2 h.2.2)
-  | .array ec e, cc, c1, c2, t2, h => by
+  | .array n ec e, cc, c1, c2, t2, h => by
     cases t2 <;> simp [paramCmp] at h
-    rename_i ec2 e2
-    exact .array _ _ _ _ (paramCmp_sound e false ec ec2 e2 h.2)
+    rename_i n2 ec2 e2
+    obtain ⟨_, hn, he⟩ := h
+    subst hn
+    exact .array _ _ _ _ _ (paramCmp_sound e false ec ec2 e2 he)
+  | .range n, cc, c1, c2, t2, h => by
+    cases t2 <;> simp [paramCmp] at h
+    rw [← h.2]; exact .range n
+  | .slice n ec e, cc, c1, c2, t2, h => by
+    cases t2 <;> simp [paramCmp] at h
+    rename_i n2 ec2 e2
+    obtain ⟨_, hn, he⟩ := h
+    subst hn
+    exact .slice _ _ _ _ _ (paramCmp_sound e false ec ec2 e2 he)
+  | .tuple ms, cc, c1, c2, t2, h => by
+    cases t2 <;> simp [paramCmp] at h
+    rename_i ms2
+    exact .tuple _ _ (paramListCmpNC_sound ms ms2 h.2)
+
+theorem paramListCmpNC_sound : (ps1 ps2 : TyList) → paramListCmp false ps1 ps2 = true → SameMembers ps1 ps2
+  | .nil, .nil, _ => .nil
+  | .nil, .cons _ _ _, h => by simp [paramListCmp] at h
+  | .cons _ _ _, .nil, h => by simp [paramListCmp] at h
+  | .cons c1 t1 r1, .cons c2 t2 r2, h => by
+    simp only [paramListCmp, Bool.and_eq_true] at h
+    exact .cons _ _ _ _ _ _ (paramCmp_sound t1 false c1 c2 t2 h.1) (paramListCmpNC_sound r1 r2 h.2)
 
 theorem paramListCmp_sound : (ps1 ps2 : TyList) → paramListCmp true ps1 ps2 = true → SameTys ps1 ps2
   | .nil, .nil, _ => .nil
@@ -109,7 +143,7 @@ def paramCmpPinned (constCmp : Bool) (c1 : PCst) (t1 : Ty) (c2 : PCst) (t2 : Ty)
   | .float, .float => true
   | .char, .char => true
   | .string, .string => true
-  | .array ec1 e1, .array ec2 e2 => paramCmpPinned false ec1 e1 ec2 e2
+  | .array _ ec1 e1, .array _ ec2 e2 => paramCmpPinned false ec1 e1 ec2 e2
   | .enum a, .enum b => a == b
   | .record a, .record b => a == b
   | .func ps1 rc1 r1, .func ps2 _ _ =>
@@ -173,11 +207,35 @@ theorem paramExprCmp_sound (cc : Bool) (pc : PCst) (pt : Ty) (ln : Ln) (c : Comb
           exact .func _ _ _ _ _ _ (paramListCmp_sound ps ps2 hf.1)
             (paramCmp_sound r false rc rc2 r2 hf.2)
         · simp [hf] at h
-      | array ec e =>
+      | array n ec e =>
         cases a <;> simp at h
-        rename_i ec2 e2
-        by_cases hf : paramCmp false ec2 e ec2 e2 = true
-        · exact .array _ _ _ _ (paramCmp_sound e false ec2 ec2 e2 hf)
+        rename_i n2 ec2 e2
+        by_cases hf : (n == n2 && paramCmp false ec2 e ec2 e2) = true
+        · simp only [Bool.and_eq_true, beq_iff_eq] at hf
+          obtain ⟨hn, he⟩ := hf
+          subst hn
+          exact .array _ _ _ _ _ (paramCmp_sound e false ec2 ec2 e2 he)
+        · simp at hf; simp_all
+      | range n =>
+        cases a <;> simp at h
+        rename_i n2
+        by_cases hn : n = n2
+        · subst hn; exact .range n
+        · simp [hn] at h
+      | slice n ec e =>
+        cases a <;> simp at h
+        rename_i n2 ec2 e2
+        by_cases hf : (n == n2 && paramCmp false ec2 e ec2 e2) = true
+        · simp only [Bool.and_eq_true, beq_iff_eq] at hf
+          obtain ⟨hn, he⟩ := hf
+          subst hn
+          exact .slice _ _ _ _ _ (paramCmp_sound e false ec2 ec2 e2 he)
+        · simp at hf; simp_all
+      | tuple ms =>
+        cases a <;> simp at h
+        rename_i ms2
+        by_cases hf : paramListCmp false ms ms2 = true
+        · exact .tuple _ _ (paramListCmpNC_sound ms ms2 hf)
         · simp [hf] at h
     | recordId r' =>
       rw [hct] at h
